@@ -678,6 +678,22 @@ def monitor_corrector(ck, sp, dn, shape, d, P, rng, mode, nograd=True):
     Rn = R.double().numpy().reshape(n, d)
     Jn = J.double().numpy().reshape(n, d, P)
     ref = reference(sp, Rn, Jn, u)
+    # memory layout of the residual (the model's output as the optimiser hands it on): same values, different strides
+    layout = "contiguous"
+    if R.dim() >= 2 and rng.random() < 0.45:
+        if R.dim() >= 3 and rng.random() < 0.6:
+            perm = [1, 0] + list(range(2, R.dim()))
+            R = R.permute(perm).contiguous().permute(perm)            # batch axes swapped in memory
+            layout = "permuted"
+        elif R.shape[0] > 1 or rng.random() < 0.5:
+            big = torch.zeros((2 * R.shape[0],) + tuple(R.shape[1:]), dtype=dtype)
+            big[::2] = R
+            R = big[::2]
+            layout = "strided"
+        else:
+            R = R.transpose(0, -1).contiguous().transpose(0, -1)       # component axis first in memory
+            layout = "transposed"
+    ck.mark("layout/R:" + layout)
     zero_rows = ref["c"] == 0
     trivial = bool(zero_rows.all())
     outs = {}
@@ -688,7 +704,8 @@ def monitor_corrector(ck, sp, dn, shape, d, P, rng, mode, nograd=True):
         def wit():
             return {"kernel": sp.name, "params": list(sp.params), "corrector": cname, "dtype": dn, "R_shape": list(R.shape),
                     "J_shape": list(J.shape), "R": Rn.tolist(), "J": Jn.reshape(n * d, P).tolist() if n * d * P <= 120 else "large",
-                    "c": ref["c"].tolist(), "rho1": ref["r1"].tolist(), "rho2": ref["r2"].tolist(), "no_grad": nograd}
+                    "c": ref["c"].tolist(), "rho1": ref["r1"].tolist(), "rho2": ref["r2"].tolist(), "no_grad": nograd,
+                    "R_layout": layout, "R_strides": list(R.stride())}
 
         cor = getattr(ppc, cname)(sp.make())
         R0, J0 = R.clone(), J.clone()
@@ -995,6 +1012,7 @@ def run(ck):
             ck.require(f"shape/{cname}/d{d}")
         for r in (0, 1, 2):
             ck.require(f"shape/{cname}/rank{r}")
+        ck.require("layout/R:permuted", "layout/R:strided", "layout/R:contiguous")
         for dn in ("f64", "f32"):
             ck.require(f"dtype/{cname}/{dn}")
 
